@@ -1581,8 +1581,23 @@ def bounded_validation():
             mism.append((name, "search crashed: " + repr(e)[:200]))
         if r:
             mism.append((r["target"], f"{r['observed']} (history: {r['inputs'].get('history')})"))
+    mism.extend(assumed_model_facts())
     m2, nfiles, nsample = fixtures_check()
     return mism + m2, nfiles, nsample
+
+
+def assumed_model_facts():
+    """(round 7) Facts about third-party objects that symbolic contracts ASSUME, checked against the installed library: pypdf's
+    `crypt_provider` is a tuple of strings (`permanent_patch_contract` reads its first item as "some string")."""
+    out = []
+    try:
+        import pypdf._crypt_providers as providers
+        cp = getattr(providers, "crypt_provider", None)
+        if not (isinstance(cp, tuple) and cp and all(isinstance(x, str) for x in cp)):
+            out.append(("pypdf._crypt_providers.crypt_provider", f"assumed to be a tuple of strings, is {cp!r}"))
+    except Exception as e:  # noqa
+        out.append(("pypdf._crypt_providers", "assumed importable: " + repr(e)[:160]))
+    return out
 
 
 def private_tmp():
